@@ -108,6 +108,23 @@ pub fn gen_string<T: Display>(tag_name: &str, value: &T) -> String {
     format!("<{tag_name} type=\"String\"><![CDATA[{value}]]></{tag_name}>\n")
 }
 
+pub fn escape_attribute(value: &str) -> String {
+    let mut escaped = String::with_capacity(value.len());
+    for c in value.chars() {
+        match c {
+            '&' => escaped += "&amp;",
+            '<' => escaped += "&lt;",
+            '>' => escaped += "&gt;",
+            '"' => escaped += "&quot;",
+            '\t' => escaped += "&#9;",
+            '\n' => escaped += "&#10;",
+            '\r' => escaped += "&#13;",
+            _ => escaped.push(c),
+        }
+    }
+    escaped
+}
+
 pub fn gen_float<T: Display>(tag_name: &str, value: T) -> String {
     format!("<{tag_name} type=\"Float\">{value}</{tag_name}>\n")
 }
